@@ -504,7 +504,7 @@ def check_quotes_shape(ctx: Ctx) -> None:
         raise AnalysisError("replacement callback of QUOTE_PATTERN not found")
     repo.func(cb.qual)  # anchor
     # what the callback can return, by which kind of quote matched (group 2: double, group 3: single)
-    n_ret = len(prog.flow(cb).cfg.returns())
+    n_ret = len(prog.flow(cb.func).cfg.returns())
     for gid, pair, other in ((2, CURLY_DOUBLE, 3), (3, CURLY_SINGLE, 2)):
         outs = callback_outcomes(prog, cb, {gid: True, other: False})
         want = (G(1), pair[0], G(gid), pair[1], G(4))
@@ -512,7 +512,7 @@ def check_quotes_shape(ctx: Ctx) -> None:
         ctx.ob("R-SUBSHAPE-quote", f"{cb.qual} :: replacement when group {gid} matched", not bad and want in outs,
                "the replacement must be group1 + one curly quote + the content group + the matching curly quote + group4 "
                "(length preserving, only the two quote positions change), or the whole match unchanged; "
-               f"with group {gid} set the callback can return: {sorted(fmt_parts(o) for o in outs)}", where(cb, cb.node))
+               f"with group {gid} set the callback can return: {sorted(fmt_parts(o) for o in outs)}", where(cb.func, cb.func.node))
     ctx.require("R-SUBSHAPE", "returns of the quote callback", n_ret, 2)
     # apostrophes: one-character pattern, one-character replacement; the split keeps its separators
     n_sub = 0
@@ -542,7 +542,7 @@ def check_quotes_shape(ctx: Ctx) -> None:
             return v.pattern if isinstance(v, RegexConst) else None
         return None
 
-    funcs = [ap] + [repo.functions[q] for q in sorted(exclusive_helpers(prog, ap)) if q in repo.functions and repo.functions[q] is not cb]
+    funcs = [ap] + [repo.functions[q] for q in sorted(exclusive_helpers(prog, ap)) if q in repo.functions and repo.functions[q] is not cb.func]
     n_join = 0
     for f in funcs:
         fl = prog.flow(f)
@@ -738,7 +738,7 @@ def check_ellipsis_shape(ctx: Ctx) -> None:
     if cb is None:
         raise AnalysisError("replacement callback of ELLIPSIS_PATTERN not found")
     repo.func(cb.qual)  # anchor
-    n_ret = len(prog.flow(cb).cfg.returns())
+    n_ret = len(prog.flow(cb.func).cfg.returns())
     outs = callback_outcomes(prog, cb, {})
     from .callback import flatten as _flat
 
@@ -751,7 +751,7 @@ def check_ellipsis_shape(ctx: Ctx) -> None:
     ctx.ob("R-SUBSHAPE-ellipsis", f"{cb.qual} :: replacement built from groups 1,2,4,5", not bad and keeps in outs,
            "the replacement may only be: the whole match, or group1 + (group2 | one space) + the ellipsis character + group4 + (group5 | one space) - "
            "only the three dots and the whitespace directly around them change; "
-           f"the callback can return: {sorted(fmt_parts(o) for o in outs)}", where(cb, cb.node))
+           f"the callback can return: {sorted(fmt_parts(o) for o in outs)}", where(cb.func, cb.func.node))
     ctx.require("R-SUBSHAPE", "returns of the ellipsis callback", n_ret, 1)
     _check_callback_stateless(ctx, el, "R-SUBSHAPE-ellipsis")
     _check_literals(ctx, mod, {"…", "“", "‘", "”", "’", "—"})
